@@ -245,7 +245,10 @@ def run(ctx, prop):
         return h[:idx[0] + 1] if len(idx) >= 2 else None
     bases = [b for b in (first_solve(h) for n, h in zip(reg_names, reg) if n in ("modset", "zerocap", "suspnorelease", "suspstaged")) if b]
     extra = L.annotate(ctx, [L.REGRESSION["suspnorelease"][:5] + [O("solve")], L.RICH_BASE], "b18")
-    bases.append(extra[1] if prop != "C18" else extra[0])
+    if prop == "C18":
+        bases.append(extra[0])
+    elif prop in ("C15", "C16") or not quick:
+        bases.append(extra[1])           # (quick C17: its alphabets make the extensions of the rich base too many)
     # ---- M (in the background, while the histories are generated)
     from concurrent.futures import ThreadPoolExecutor
     pool_m = ThreadPoolExecutor(max_workers=2)
@@ -260,7 +263,7 @@ def run(ctx, prop):
         fam["wrap"] = [h for h in fam["wrap"] if any(o["op"] == "ff" for o in h)]
     pool = [h for h in rnd if len([o for o in h if o["op"] == "solve"]) >= 2]
     ctx.rng.shuffle(pool)
-    nb = 2 if quick else 8
+    nb = (1 if prop in ("C15", "C16") else 2) if quick else 8
     bases_r = [b for b in (cut_after_solve(h, ctx.rng) for h in pool[:nb]) if b]
     ext_bases = bases + bases_r
     ext, r_ext = L.extensions(ctx, ext_bases, ext_params(prop, par), "ext", timeout=900 if quick else 2400)
